@@ -139,10 +139,10 @@ class Ref:
 
 
 class Closure:
-    __slots__ = ("name", "caps")
+    __slots__ = ("name", "caps", "subst")
 
-    def __init__(self, name, caps):
-        self.name, self.caps = name, caps
+    def __init__(self, name, caps, subst=None):
+        self.name, self.caps, self.subst = name, caps, subst
 
     def __repr__(self):
         return f"closure<{self.name}>"
